@@ -18,6 +18,7 @@ import (
 	"verif/internal/evid"
 	"verif/internal/refjson"
 	"verif/internal/typeuniv"
+	"verif/props/c08"
 	"verif/props/c17"
 	"verif/props/mtypes"
 )
@@ -311,6 +312,17 @@ func replayCase(cs Case) string {
 	if cs.Part == "wide" {
 		return replayWide(cs)
 	}
+	if cs.Part == "name-carrier" {
+		sets := optSets()
+		for si := range sets {
+			for e, en := range entryNames {
+				if sets[si].name == cs.OptSet && en == cs.Entry {
+					return checkValue(c08.RebuildNameCarrier(cs.Index), &sets[si], e)
+				}
+			}
+		}
+		return ""
+	}
 	if cs.Part != "universe" {
 		return ""
 	}
@@ -389,9 +401,35 @@ func Run(r *evid.Run) {
 	r.Bound("type universe: %d types (depth %d + hand-picked adversarial types) x value domains x %d option sets x %d entry points", len(ts), depth, len(sets), len(entryNames))
 	formatted(r)
 	wideUser(r)
+	nameCarriers(r)
 	userOutputs(r)
 	c17.MarshalPolicing(r, "c02")
 	r.Outcomes(map[string]int64{"nil error: output validated": nOK.Load(), "error returned": nErr.Load()})
+}
+
+// nameCarriers: every way a member name can reach the output (map keys of every kind with MarshalText and/or
+// AppendText, fallback maps and raw values, user-written objects) with pairs of names that coincide once written.
+func nameCarriers(r *evid.Run) {
+	vals, labels := c08.NameCarrierValues()
+	sets := optSets()
+	var n int64
+	for i := range vals {
+		for si := range sets {
+			for e := range entryNames {
+				if e == 6 {
+					continue
+				}
+				n++
+				if m := checkValue(c08.RebuildNameCarrier(i), &sets[si], e); m != "" {
+					cs := Case{Part: "name-carrier", Index: i, OptSet: sets[si].name, Entry: entryNames[e], Detail: labels[i]}
+					r.Violation(fmt.Sprintf("c02|name-carrier|%d|%s|%s", i, cs.OptSet, cs.Entry), labels[i]+": "+m, cs, func() bool { return replayCase(cs) != "" })
+				}
+			}
+		}
+	}
+	r.Evaluations.Add(n)
+	r.Nontrivial.Add(n)
+	r.Bound("name carriers: %d (carrier, name pair) values x %d option sets x 6 entry points", len(vals), len(sets))
 }
 
 // ---- user methods returning arbitrary bytes ----
